@@ -21,6 +21,11 @@ RANK = {"Rank2": [[1, 2, 3, 4], [4, 2, 1, 3]],
         "Rank4": [[1, 2, 3, 4], [4, 2, 1, 3], [5, 1], [2, 3, 4, 5, 1]]}
 DEFAULT_COUNT = 3
 NCAND = 5
+# Which BPCOUNT rule the code under test implements.  False = the code as it is (finding BPS-F1: the count is the in-memory
+# parameter at the moment a list is computed); True = the repaired rule (the count is read from the state of the snapshot
+# block): the generation / simulation models are then run with CountFix = TRUE and the expected-counterexample run is skipped.
+# To be flipped (here or with VERIF_BPS_COUNTFIX=1) when the repair lands in /repo.
+COUNT_FIX = os.environ.get("VERIF_BPS_COUNTFIX", "") == "1"
 
 
 def offsets(p, period=100):
@@ -90,11 +95,14 @@ def snap_ref(h, p):
 
 
 def ideal(chain, p, rankings):
-    """BpSnapshots!Ideal(chain, Len(chain)) under the code's rule (CountFix = FALSE)"""
+    """BpSnapshots!Ideal(chain, Len(chain))"""
     r = snap_ref(len(chain), p)
     if r == 0:
         return list(GENESIS)
-    n = DEFAULT_COUNT if r == 1 else chain[r - 2]["count"]
+    if COUNT_FIX:
+        n = chain[r - 1]["count"]
+    else:
+        n = DEFAULT_COUNT if r == 1 else chain[r - 2]["count"]
     return rankings[chain[r - 1]["rank"] - 1][:n]
 
 
@@ -223,6 +231,17 @@ def run_bpsnap(c):
         "system-contract state (system.InitVoteResult, updateParam)",
         "BpSnapshots: model period P is mapped to the code's constant period 100 (offsets boundary, boundary+1, ..., boundary-1; all real blocks in between are connected)"]
     box, th = {}, []
+    spec_dir = SPEC_DIR
+    if COUNT_FIX:
+        spec_dir = os.path.join(c.work, "bps_specfix")
+        os.makedirs(spec_dir)
+        for fn in os.listdir(SPEC_DIR):
+            if "BpSnapshots" in fn:
+                txt = open(os.path.join(SPEC_DIR, fn)).read()
+                if fn.startswith(("Gen_", "Sim_")):
+                    txt = txt.replace("CountFix = FALSE", "CountFix = TRUE")
+                open(os.path.join(spec_dir, fn), "w").write(txt)
+        c.notes.append("BpSnapshots: generation / simulation with CountFix = TRUE (repaired BPCOUNT rule)")
 
     def bg(key, fn):
         def w():
@@ -236,10 +255,12 @@ def run_bpsnap(c):
         return t
 
     mc = "MC_BpSnapshots_big.cfg" if thorough else "MC_BpSnapshots.cfg"
-    bg("mc", lambda: vlib.tlc(SPEC_DIR, "MC_BpSnapshots", mc, os.path.join(c.work, "bps_mc"), workers=6, timeout=2400))
+    bg("mc", lambda: vlib.tlc(spec_dir, "MC_BpSnapshots", mc, os.path.join(c.work, "bps_mc"), workers=6, timeout=2400))
     fixcfg = "MC_BpSnapshots_fix_big.cfg" if thorough else "MC_BpSnapshots_fix.cfg"
-    bg("fix", lambda: vlib.tlc(SPEC_DIR, "MC_BpSnapshots", fixcfg, os.path.join(c.work, "bps_fix"), workers=4, timeout=2400))
-    bg("cnt", lambda: vlib.tlc(SPEC_DIR, "MC_BpSnapshots", "MC_BpSnapshots_count.cfg", os.path.join(c.work, "bps_cnt"), workers=2, timeout=900))
+    bg("fix", lambda: vlib.tlc(spec_dir, "MC_BpSnapshots", fixcfg, os.path.join(c.work, "bps_fix"), workers=4, timeout=2400))
+    if not COUNT_FIX:
+        bg("cnt", lambda: vlib.tlc(spec_dir, "MC_BpSnapshots", "MC_BpSnapshots_count.cfg", os.path.join(c.work, "bps_cnt"), workers=2, timeout=900))
+        bg("cnt2", lambda: vlib.tlc(spec_dir, "MC_BpSnapshots", "MC_BpSnapshots_count2.cfg", os.path.join(c.work, "bps_cnt2"), workers=2, timeout=900))
     # simulated deep behaviours of the larger instance
     simcfg = "Sim_BpSnapshots.cfg"
     nsim, dsim = (1500, 60) if thorough else (150, 50)
@@ -247,12 +268,12 @@ def run_bpsnap(c):
     os.makedirs(simdir, exist_ok=True)
 
     def sim():
-        r = vlib.tlc(SPEC_DIR, "MC_BpSnapshots", simcfg, os.path.join(c.work, "bps_sim"), workers=1, timeout=1500,
+        r = vlib.tlc(spec_dir, "MC_BpSnapshots", simcfg, os.path.join(c.work, "bps_sim"), workers=1, timeout=1500,
                      args=["-simulate", "file=%s/t,num=%d" % (simdir, nsim), "-depth", str(dsim), "-seed", str(c.seed * 7919 + 11)])
         return r, (read_sim(simdir, "t") if r.ok else None)
     simth = bg("sim", sim)
     gcfg = "Gen_BpSnapshots_big.cfg" if thorough else "Gen_BpSnapshots.cfg"
-    genth = bg("gen", lambda: vlib.tlc(SPEC_DIR, "MC_BpSnapshots", gcfg, os.path.join(c.work, "bps_gen"), workers=1, timeout=2400))
+    genth = bg("gen", lambda: vlib.tlc(spec_dir, "MC_BpSnapshots", gcfg, os.path.join(c.work, "bps_gen"), workers=1, timeout=2400))
     exe = None
     try:
         t0 = time.time()
@@ -316,13 +337,16 @@ def run_bpsnap(c):
             t.join()
         if exe and os.path.exists(exe):
             os.remove(exe)
-    for k in ("mc", "fix", "cnt"):
+    for k in ("mc", "fix", "cnt", "cnt2"):
         if k + "_err" in box:
             raise box[k + "_err"]
     c.require_ok(box["mc"], "BpSnapshots design, BPCOUNT constant: list in force is a function of the chain, cache coherent, changes only at period "
                             "boundaries, gc keeps one period, size = min(BPCOUNT, candidates) (%s)" % mc)
     c.require_ok(box["fix"], "BpSnapshots design, BPCOUNT variable, repaired rule (count read from the snapshot block's state): same properties (%s)" % fixcfg)
-    r = box["cnt"]
-    c.add_tlc(r, "BpSnapshots design, BPCOUNT variable, the code's rule: expected counterexample to ListInForceIsFunctionOfChain (finding BPS-F1)")
-    if r.violation != "ListInForceIsFunctionOfChain":
-        raise vlib.Infra("MC_BpSnapshots_count.cfg was expected to violate ListInForceIsFunctionOfChain, TLC says: %s\n%s" % (r.violation, r.out[-2000:]))
+    for k, cfg, how in (("cnt", "MC_BpSnapshots_count.cfg", "connects and restarts"), ("cnt2", "MC_BpSnapshots_count2.cfg", "connects and reorganisations")):
+        if k not in box:
+            continue
+        r = box[k]
+        c.add_tlc(r, "BpSnapshots design, BPCOUNT variable, the code's rule, %s: expected counterexample to ListInForceIsFunctionOfChain (finding BPS-F1)" % how)
+        if r.violation != "ListInForceIsFunctionOfChain":
+            raise vlib.Infra("%s was expected to violate ListInForceIsFunctionOfChain, TLC says: %s\n%s" % (cfg, r.violation, r.out[-2000:]))
